@@ -85,8 +85,11 @@ class Sim:
                     return 0, "", exe + ": error: injected failure\n"
                 return 0, "%%garbage%%\n", ""
         if self.tick is not None:
-            self.tick(exe)
-        return getattr(self, "cmd_" + exe)(args, inp)
+            self.tick(exe)                    # the process may be killed before the command reaches the scheduler ...
+        res = getattr(self, "cmd_" + exe)(args, inp)
+        if self.tick is not None:
+            self.tick("post-" + exe)          # ... or after the scheduler acted but before gwf saw the answer
+        return res
 
     def _new_id(self):
         jid = str(self.next_id)
